@@ -5,11 +5,20 @@ Sub-checks
                SKIP-producing callables, constant Val) ending in [value_spec] / First (top level
                only) / Max / Min / Avg / Sum / Count / Flatten / Merge / dict-of-aggregators / a
                top-level Limit(n[, sub]); the same spec object evaluated repeatedly, per row of a
-               list spec, and nested inside another Group's aggregator
+               list spec, and nested inside another Group's aggregator.
+               Two constructed classes on top of the general one:
+                 idkey   an item whose bucket key is id(<the dict spec of that level>) (the item is a placeholder
+                         ['id', path] in the recipe; the number is spliced in once the spec objects exist) - F61
+                 num-*   big ints (beyond 2**53), Fractions, Decimals routed to Avg leaves - F62
   first-under-key   First() below one key level (known finding F15 lives here, by construction)
 
 Oracle: refgroup() - an explicit bucketing loop with insertion-ordered dicts.
 """
+import functools
+import operator
+from decimal import Decimal
+from fractions import Fraction
+
 from hypothesis import strategies as st
 
 import glom
@@ -21,11 +30,13 @@ from ..runner import Sub, Mismatch
 from .. import targets as tg
 
 PROPERTY = 'C16'
-RULE = ('items: 0-8 small ints (negative, zero, positive); spec trees: 0-3 key levels over {T % 2, T % 3, callable, SKIP-producing callable, Val} '
+RULE = ('items: 0-8 small ints (negative, zero, positive), in constructed classes also id(<dict spec>), ints beyond 2**53, Fractions, Decimals; '
+        'spec trees: 0-3 key levels over {T, T % 2, T % 3, callable, SKIP-producing callable, Val} '
         '(key specs of one level have disjoint key ranges) and the listed leaves; every spec object is evaluated twice and '
         'also per row / inside another Group. Non-trivial = >= 2 key levels or an aggregator leaf, with >= 2 buckets of >= 2 items.')
 ASSUMPTIONS = [
-    'integer data, so Avg is exact',
+    'Avg reference: functools.reduce(operator.add, xs, 0) / len(xs) - exact for ints (true division rounds once), Fractions and Decimals',
+    'an item that stands for id(<dict spec>) is known only after the spec is built: its value differs between processes, its position and the dict it names do not',
     'top-level aggregators on empty input, Limit below a key level and two key specs producing the same bucket key are outside the statement and not generated',
     'First/STOP-producing leaves below a key level are generated only in the first-under-key sub-check (known finding F15)',
 ]
@@ -51,7 +62,9 @@ def skip3(x):
     return SKIP if x == 3 else x
 
 
+# third field: the range of keys (None: any value at all, so no second key spec can sit at the same level)
 KEYS = {
+    'ident': (lambda: T, lambda x: x, None),
     'mod2': (lambda: T % 2, lambda x: x % 2, {0, 1}),
     'mod3': (lambda: T % 3, lambda x: x % 3, {0, 1, 2}),
     'big': (lambda: big, big, {'big', 'small'}),
@@ -61,31 +74,165 @@ KEYS = {
 LEAVES = ['list', 'listx2', 'max', 'min', 'avg', 'sum', 'count', 'aggdict', 'listskip', 'flatten', 'merge']
 
 
-def gen_tree(draw, levels, top=True):
+NUMLEAVES = ['avg', 'avg', 'avg', 'sum', 'max', 'min', 'count', 'list', 'aggdict']
+SMALL = list(range(-4, 10))
+BIGINTS = [2 ** 53, 2 ** 53 + 1, 2 ** 53 + 3, 2 ** 54 + 2, 2 ** 60 + 1, 2 ** 63 - 1, 2 ** 64 + 1, 10 ** 17 + 1, 3 ** 40, -(2 ** 53) - 1,
+           -(2 ** 62) - 3, 2 ** 80 + 12345]
+DECIMALS = ['0.1', '0.2', '1.5', '2.50', '-3.25', '1E+2', '7', '0.333', '-0.5', '12.125']
+
+
+def gen_tree(draw, levels, top=True, leaves=LEAVES):
     if levels == 0:
-        return ['leaf', draw(st.sampled_from(LEAVES + (['first'] if top else [])))]
+        return ['leaf', draw(st.sampled_from(leaves + (['first'] if top and leaves is LEAVES else [])))]
     names = sorted(KEYS)
     k1 = draw(st.sampled_from(names))
-    entries = [[k1, gen_tree(draw, levels - 1, False)]]
+    entries = [[k1, gen_tree(draw, levels - 1, False, leaves)]]
     if draw(st.integers(0, 4)) == 0:
-        others = [k for k in names if not (KEYS[k][2] & KEYS[k1][2])]
+        others = [k for k in names if KEYS[k][2] is not None and KEYS[k1][2] is not None and not (KEYS[k][2] & KEYS[k1][2])]
         if others:
-            entries.append([draw(st.sampled_from(others)), gen_tree(draw, levels - 1, False)])
+            entries.append([draw(st.sampled_from(others)), gen_tree(draw, levels - 1, False, leaves)])
     return ['dict', entries]
 
 
+def gen_idkey(draw):
+    """an item whose key at one dict level is id(<that dict spec>): the level's key spec is T itself, the item a placeholder"""
+    nlev = draw(st.sampled_from([1, 1, 2, 2, 3]))
+    tree = gen_tree(draw, nlev, False)
+    path, node = [], tree
+    for _ in range(draw(st.sampled_from(range(nlev)))):
+        i = draw(st.sampled_from(range(len(node[1]))))
+        path.append(i)
+        node = node[1][i][1]
+    node[1] = [['ident', node[1][0][1]]]
+    n = draw(st.integers(2, 7))
+    items = [draw(st.sampled_from(SMALL)) for _ in range(n)]
+    # always followed by at least one more item: the lost accumulator shows in what is returned for the NEXT item of that level
+    items.insert(draw(st.sampled_from(range(n))), ['id', path])
+    if draw(st.booleans()):
+        items.insert(draw(st.sampled_from(range(n + 2))), ['id', path])
+    return tree, items
+
+
+def gen_numeric(draw, kind):
+    """big ints / Fractions / Decimals as the inputs of Avg (first leaf of the tree is Avg, the others are drawn)"""
+    tree = gen_tree(draw, draw(st.integers(0, 3)), False, NUMLEAVES)
+    node = tree
+    while node[0] == 'dict':
+        node = node[1][0][1]
+    node[1] = 'avg'
+    items = []
+    for _ in range(draw(st.integers(1, 8))):
+        if draw(st.integers(0, 3)) == 0:
+            items.append(draw(st.sampled_from(SMALL)))
+        elif kind == 'bigint':
+            if draw(st.booleans()):
+                items.append(draw(st.sampled_from(BIGINTS)))
+            else:
+                items.append(2 ** draw(st.sampled_from(range(53, 90))) + draw(st.sampled_from([-3, -1, 1, 3, 5, 7])))
+        elif kind == 'fraction':
+            items.append(['F', draw(st.sampled_from(range(-9, 30))), draw(st.sampled_from([2, 3, 4, 5, 7, 10, 49]))])
+        else:
+            items.append(['D', draw(st.sampled_from(DECIMALS))])
+    return tree, items
+
+
 def gen(draw):
-    tree = gen_tree(draw, draw(st.integers(0, 3)))
+    cls = draw(st.sampled_from(['plain'] * 7 + ['idkey'] * 2 + ['bigint', 'fraction', 'decimal']))
+    if cls == 'idkey':
+        tree, items = gen_idkey(draw)
+    elif cls != 'plain':
+        tree, items = gen_numeric(draw, cls)
+    else:
+        tree = gen_tree(draw, draw(st.integers(0, 3)))
+        n = draw(st.integers(0, 8))
+        # ints plus a few equal-but-distinguishable values (1 / 1.0 / True, 2 / 2.0, 0 / 0.0 / False): ties must go to the first
+        items = [draw(st.sampled_from(SMALL + [1.0, 2.0, 0.0, True, False, 4.0])) for _ in range(n)]
     if draw(st.integers(0, 7)) == 0:
         tree = ['limit', draw(st.integers(0, 5)), tree if draw(st.booleans()) else None]
-    n = draw(st.integers(0, 8))
-    # ints plus a few equal-but-distinguishable values (1 / 1.0 / True, 2 / 2.0, 0 / 0.0 / False): ties must go to the first
-    items = [draw(st.sampled_from(list(range(-4, 10)) + [1.0, 2.0, 0.0, True, False, 4.0])) for _ in range(n)]
-    nest = draw(st.sampled_from(['plain', 'plain', 'rows', 'sum-of-groups']))
-    if nest == 'sum-of-groups' and not (tree[0] == 'leaf' and tree[1] in ('count', 'sum', 'max', 'min')):
+    summable = tree[0] == 'leaf' and tree[1] in ('count', 'sum', 'max', 'min')
+    # (the constructed classes rarely are a bare aggregator: the nested evaluation gets a larger share of those that are)
+    nest = draw(st.sampled_from(['plain', 'plain', 'rows', 'sum-of-groups'] + (['sum-of-groups'] * 2 if summable else [])))
+    if nest == 'sum-of-groups' and not summable:
         nest = 'plain'
     rows = [[draw(st.integers(-4, 9)) for _ in range(draw(st.integers(1, 4)))] for _ in range(draw(st.integers(0, 3)))]
     return {'tree': tree, 'items': items, 'nest': nest, 'rows': rows}
+
+
+def dict_at(tree, spec, path):
+    """(recipe node, built object) of the dict spec that `path` (entry indexes, a top-level Limit is looked through) names:
+    the deepest dict on the way if the path runs past a leaf; (None, None) if there is no dict at all"""
+    found = (None, None)
+    path = list(path)
+    while True:
+        if tree[0] == 'limit':
+            if tree[2] is None:
+                return found
+            tree, spec = tree[2], (spec.subspec if spec is not None else None)
+            continue
+        if tree[0] != 'dict':
+            return found
+        found = (tree, spec)
+        if not path:
+            return found
+        i = path.pop(0) % len(tree[1])
+        tree, spec = tree[1][i][1], (list(spec.values())[i] if spec is not None else None)
+
+
+def decode_items(items, tree, built):
+    """recipe items -> values; ['id', path] becomes id() of the built dict spec object (0 if the tree has no dict)"""
+    out = []
+    for v in items:
+        if isinstance(v, list):
+            if v[0] == 'F':
+                v = Fraction(v[1], v[2])
+            elif v[0] == 'D':
+                v = Decimal(v[1])
+            elif v[0] == 'id':
+                obj = dict_at(tree, built, v[1])[1]
+                v = id(obj) if obj is not None else 0
+            else:
+                raise ValueError(v)
+        out.append(v)
+    return out
+
+
+def route(tree, path, x):
+    """bucket keys above the dict that `path` names for item x, None when a key spec on the way drops x"""
+    keys = []
+    path = list(path)
+    if tree[0] == 'limit':
+        tree = tree[2] or ['leaf', 'list']
+    while path and tree[0] == 'dict':
+        i = path.pop(0) % len(tree[1])
+        nxt = tree[1][i][1]
+        if nxt[0] != 'dict':
+            break
+        k = KEYS[tree[1][i][0]][1](x)
+        if k is SKIP:
+            return None
+        keys.append(k)
+        tree = nxt
+    return keys
+
+
+def idkey_labels(recipe, tree, items):
+    """'idkey': an item equals id() of a dict spec whose own key spec is T (so the id is the bucket key at that very level);
+    'idkey-followed': a later item reaches the same accumulator (same buckets above, inside a top-level Limit)"""
+    labs = set()
+    seen = items[:tree[1]] if tree[0] == 'limit' else items
+    for i, v in enumerate(recipe['items'][:len(seen)]):
+        if not (isinstance(v, list) and v[0] == 'id'):
+            continue
+        node = dict_at(tree, None, v[1])[0]
+        if node is None or not any(k == 'ident' for k, _ in node[1]):
+            continue
+        mine = route(tree, v[1], seen[i])
+        if mine is None:
+            continue
+        labs.add('idkey')
+        if any(route(tree, v[1], y) == mine for y in seen[i + 1:]):
+            labs.add('idkey-followed')
+    return labs
 
 
 def build(r):
@@ -103,7 +250,7 @@ def build(r):
 EMPTY = object()
 
 
-def refleaf(kind, items):
+def refleaf(kind, items, zero=0):
     if kind == 'list':
         return list(items)
     if kind == 'listx2':
@@ -115,7 +262,8 @@ def refleaf(kind, items):
     if kind == 'min':
         return min(items)
     if kind == 'avg':
-        return sum(items) / float(len(items))
+        # sum(xs) / len(xs), the sum started from an exact zero (zero=0.0 only measures which cases depend on that)
+        return functools.reduce(operator.add, items, zero) / len(items)
     if kind == 'sum':
         return sum(items)
     if kind == 'count':
@@ -137,13 +285,13 @@ def refleaf(kind, items):
     raise ValueError(kind)
 
 
-def refgroup(r, items):
+def refgroup(r, items, zero=0):
     """the dictionary a hand-written bucketing loop builds"""
     if r[0] == 'leaf':
-        return refleaf(r[1], items)
+        return refleaf(r[1], items, zero)
     if r[0] == 'limit':
         sub = r[2] if r[2] is not None else ['leaf', 'list']
-        return refgroup(sub, items[:r[1]])
+        return refgroup(sub, items[:r[1]], zero)
     buckets = {}
     order = []
     for x in items:
@@ -158,7 +306,7 @@ def refgroup(r, items):
     out = {}
     for key in order:
         sub, xs = buckets[key]
-        out[key] = refgroup(sub, xs)
+        out[key] = refgroup(sub, xs, zero)
     return out
 
 
@@ -209,18 +357,44 @@ def mutable_ids(v, acc=None):
     return acc
 
 
+def has_leaf(r, kind):
+    if r[0] == 'leaf':
+        return r[1] == kind
+    if r[0] == 'limit':
+        return has_leaf(r[2], kind) if r[2] is not None else False
+    return any(has_leaf(s, kind) for _, s in r[1])
+
+
 def check(recipe, ctx):
-    tree, items = recipe['tree'], list(recipe['items'])
+    tree, ritems = recipe['tree'], list(recipe['items'])
     if tree[0] == 'limit' and tree[1] == 0 and needs_items(tree):
         tree = ['limit', 1, tree[2]]       # an aggregator over no items at all is outside the statement
-    if not items and needs_items(tree):
-        items = [4]
-    if tree[0] == 'dict' and not items:
-        pass
-    spec = Group(build(tree))
+    if not ritems and needs_items(tree):
+        ritems = [4]
+    built = build(tree)
+    spec = Group(built)
+    items = decode_items(ritems, tree, built)      # id(<dict spec>) items exist only now
     exp = refgroup(tree, items)
     nbuckets = len(exp) if isinstance(exp, dict) else 0
     ctx.label('levels-%d' % levels(tree), 'nest-' + recipe['nest'], 'leaf-agg' if has_agg(tree) else 'leaf-list')
+    # the constructed classes; the mismatch kind carries the class so that each is shrunk and reported on its own
+    suffix = ''
+    idlabs = idkey_labels(dict(recipe, items=ritems), tree, items)
+    if idlabs:
+        ctx.label(*sorted(idlabs))
+        suffix = '-idkey'
+    if has_leaf(tree, 'avg'):
+        kinds = set('bigint' if type(x) is int and abs(x) >= 2 ** 53 else type(x).__name__ for x in items)
+        kinds = sorted(kinds & {'bigint', 'Fraction', 'Decimal'})
+        for k in kinds:
+            ctx.label('avg-num-' + k)
+        try:
+            from_float = same_with_order(refgroup(tree, items, 0.0), exp)
+        except TypeError:
+            from_float = False
+        if not from_float:
+            ctx.label('avg-needs-exact-sum')       # a sum started from the float 0.0 gives another answer (or none)
+            suffix = suffix or '-avg-' + ('+'.join(kinds) or 'exact')
     ctx.nontrivial((levels(tree) >= 2 or has_agg(tree)) and nbuckets >= 2 and len(items) >= 4)
     where = 'spec=%r items=%r' % (spec, items)
     results = []
@@ -228,9 +402,9 @@ def check(recipe, ctx):
         try:
             got = glom.glom(list(items), spec)
         except Exception as e:
-            raise Mismatch('unexpected-error', '%s (evaluation #%d): %s: %r' % (where, rep + 1, type(e).__name__, e))
+            raise Mismatch('unexpected-error' + suffix, '%s (evaluation #%d): %s: %r' % (where, rep + 1, type(e).__name__, e))
         if not same_with_order(got, exp):
-            raise Mismatch('wrong-result' if rep == 0 else 'carry-over',
+            raise Mismatch(('wrong-result' if rep == 0 else 'carry-over') + suffix,
                            '%s (evaluation #%d of the same spec object): expected %r, got %r' % (where, rep + 1, exp, got))
         results.append(got)
     if mutable_ids(results[0]) & mutable_ids(results[1]):
@@ -312,6 +486,8 @@ CLASSIFIERS = {'F15-first-under-key': is_f15}
 
 SUBS = [
     Sub('group', check, gen=gen, quick=5000, thorough=20000,
-        floors={'levels-2': 0.1, 'levels-3': 0.05, 'leaf-agg': 0.3, 'nest-rows': 0.1}),
+        floors={'levels-2': 0.1, 'levels-3': 0.05, 'leaf-agg': 0.3, 'nest-rows': 0.1,
+                'idkey': 0.065, 'idkey-followed': 0.06, 'avg-num-bigint': 0.03, 'avg-num-Fraction': 0.03, 'avg-num-Decimal': 0.03,
+                'avg-needs-exact-sum': 0.06}),
     Sub('first-under-key', check_first, gen=gen_first, quick=600, thorough=2000),
 ]
